@@ -75,6 +75,7 @@ type Opts struct {
 	ControlHeavy bool // bias towards loops, branches, returns and function literals
 	DeadCode     bool // keep generating statements after return/break/continue more often
 	AlwaysErrMode bool // every program may contain deliberately ill-typed sites
+	StringHeavy  bool // bias towards string / bytes producing operations (size limits)
 }
 
 // G is the generation context.
@@ -423,6 +424,9 @@ func (g *G) stmt() *lang.Node {
 	if g.o.ControlHeavy {
 		w = []int{10, 6, 3, 3, 4, 16, 16, 12, 4, 3 * wRet, 4 * wBrk, 2, 2 * wFn, 4}
 	}
+	if g.o.StringHeavy {
+		w = []int{30, 10, 24, 2, 6, 5, 10, 8, 4, wRet, wBrk, 1, wFn, 14}
+	}
 	switch g.weighted("stmt", w...) {
 	case 0:
 		return g.defineStmt()
@@ -474,6 +478,9 @@ func (g *G) stmt() *lang.Node {
 
 func (g *G) defineStmt() *lang.Node {
 	want := Ty(g.weighted("defTy", 6, 16, 8, 12, 5, 8, 4, 14, 10, 0, 3, 2, 2, 3, 3))
+	if g.o.StringHeavy && g.chance(550, "strHeavyDef") {
+		want = []Ty{TStr, TStr, TBytes, TMap}[g.draw(4, "strHeavyTy")]
+	}
 	if want == TTime && g.o.NoTime {
 		want = TInt
 	}
@@ -572,6 +579,9 @@ var intOps = []string{"+=", "-=", "*=", "/=", "%=", "&=", "|=", "^=", "&^=", "<<
 
 func (g *G) compoundStmt() *lang.Node {
 	v := g.pickVar("cmpVar", func(v *vinfo) bool {
+		if g.o.StringHeavy && g.chance(700, "strHeavyCmp") {
+			return assignable(v) && (v.t == TStr || v.t == TBytes)
+		}
 		return assignable(v) && (v.t == TInt || v.t == TFloat || v.t == TStr || v.t == TArr || v.t == TChar || v.t == TBytes)
 	})
 	if v == nil {
